@@ -106,3 +106,47 @@ func init() {
 		return e.callSSANoIntrinsic(fr, "strconv.ParseFloat", []V{vStr(s), args[1]})
 	})
 }
+
+// regexp: concrete call-outs (the host executes the real library; operands must be concrete).
+func init() {
+	reg("regexp.MustCompile", func(e *Engine, fr *frame, args []V) V {
+		pat := argStr(e, args[0], "regexp.MustCompile pattern")
+		re, err := regexpCompile(pat)
+		if err != nil {
+			panic(targetPanic{vIface(typesString(), vStr("regexp: Compile(" + pat + "): " + err.Error()))})
+		}
+		return V{K: KOpaque, P: re}
+	})
+	reg("(*regexp.Regexp).FindAllString", func(e *Engine, fr *frame, args []V) V {
+		re := hostRegexp(e, args[0])
+		s := argStr(e, args[1], "regexp subject")
+		n := int(int64(e.concInt(args[2])))
+		ms := re.FindAllString(s, n)
+		if ms == nil {
+			return V{K: KSlice, P: []V(nil)}
+		}
+		out := make([]V, len(ms))
+		for i, m := range ms {
+			out[i] = vStr(m)
+		}
+		return V{K: KSlice, P: out}
+	})
+	reg("(*regexp.Regexp).MatchString", func(e *Engine, fr *frame, args []V) V {
+		return vBool(hostRegexp(e, args[0]).MatchString(argStr(e, args[1], "regexp subject")))
+	})
+	reg("(*regexp.Regexp).FindStringSubmatch", func(e *Engine, fr *frame, args []V) V {
+		ms := hostRegexp(e, args[0]).FindStringSubmatch(argStr(e, args[1], "regexp subject"))
+		if ms == nil {
+			return V{K: KSlice, P: []V(nil)}
+		}
+		out := make([]V, len(ms))
+		for i, m := range ms {
+			out[i] = vStr(m)
+		}
+		return V{K: KSlice, P: out}
+	})
+	reg("(*regexp.Regexp).ReplaceAllString", func(e *Engine, fr *frame, args []V) V {
+		return vStr(hostRegexp(e, args[0]).ReplaceAllString(argStr(e, args[1], "regexp subject"), argStr(e, args[2], "regexp replacement")))
+	})
+	reg("(*regexp.Regexp).String", func(e *Engine, fr *frame, args []V) V { return vStr(hostRegexp(e, args[0]).String()) })
+}
